@@ -217,7 +217,9 @@ func Extract(rv reflect.Value, t *idlm.TypeRef) (*idlm.LVal, error) {
 				return nil, err
 			}
 			if e == nil {
-				return nil, shape("nil element in list")
+				if e = emptyContainer(root.Elem); e == nil {
+					return nil, shape("nil element in list")
+				}
 			}
 			v.Items = append(v.Items, e)
 		}
@@ -270,6 +272,9 @@ func Extract(rv reflect.Value, t *idlm.TypeRef) (*idlm.LVal, error) {
 				x, err := Extract(it.Value(), root.Elem)
 				if err != nil {
 					return nil, err
+				}
+				if x == nil {
+					x = emptyContainer(root.Elem)
 				}
 				if k == nil || x == nil {
 					return nil, shape("nil key or value in map")
@@ -340,3 +345,18 @@ func Extract(rv reflect.Value, t *idlm.TypeRef) (*idlm.LVal, error) {
 }
 
 var _ = math.MaxInt8
+
+// emptyContainer: inside a container there is no "unset"; a nil slice or map
+// element is an empty container.
+func emptyContainer(t *idlm.TypeRef) *idlm.LVal {
+	rt := t.Root()
+	switch rt.Kind {
+	case idlm.TList:
+		return &idlm.LVal{K: idlm.LList, Type: rt}
+	case idlm.TSet:
+		return &idlm.LVal{K: idlm.LSet, Type: rt}
+	case idlm.TMap:
+		return &idlm.LVal{K: idlm.LMap, Type: rt}
+	}
+	return nil
+}
